@@ -128,6 +128,13 @@ def evaluate(ctx, cases, stream):
                     problem = {'what': 'caller-items-changed', 'before': before, 'after': after}
         except Exception as e:  # noqa
             problem = {'what': 'raises', 'impl': f'{type(e).__name__}: {e}', 'model': model}
+            if isinstance(model, dict) and 'err' in model:
+                problem = 'both-raise'          # outside the property's quantifier (an id unknown to the ontology): model and code both fail
+                ctx.count('unknown-id cases on which model and implementation both raise')
+        if problem is None and isinstance(model, dict) and 'err' in model:
+            problem = {'what': 'model-raises-implementation-does-not', 'impl': impl, 'model': model}
+        if problem == 'both-raise':
+            problem = None
         if problem:
             ctx.violation(f'{"+".join(c["validators"])}:{problem["what"]}',
                           {'case': {'kind': 'validate', **{k: c[k] for k in ('edges', 'terms', 'items', 'validators', 'direct')}},
@@ -160,8 +167,11 @@ def random_items(rng, terms):
         pool.append(t['id'])
         pool.extend(t['alts'])
     items = []
+    unknown_too = rng.random() < 0.06       # a few cases step outside the quantifier: ids the ontology does not know (ties the model's `none` branches)
     for _ in range(rng.randrange(0, 8)):
         cu = rng.choice(pool) if not items or rng.random() < 0.8 else rng.choice(items)[1]
+        if unknown_too and rng.random() < 0.4:
+            cu = f'HP:{rng.randrange(9000000, 9000009):07d}'
         kind = rng.choice(['tid', 'idf-nostatus', 'idf-bool', 'idf-callable', 'idf-observable'])
         present = True if kind in ('tid', 'idf-nostatus') else rng.random() < 0.55
         items.append((kind, cu, present))
